@@ -438,10 +438,16 @@ def r12_counts_per_training(ctx, rule):
                           'of the same process starts with the counts of the first, so lists hold items the training set never had')
 
 
+def _splice_discipline(ctx, rule):
+    # every item the segmentation produced is counted: a detector driver appends what its detector found unconditionally (seed
+    # C06-o: words of 21+ letters still labelled A<n> in the section list but no longer handed to the alpha / mask counters)
+    from . import c05
+    return c05.r1_splice_discipline(ctx, rule)
+
 def rules(tier):
     return [('C06.R1', r1_relative_frequency), ('C06.R2', r2_all_items_written), ('C06.R3', c07.r6_wipe_before_write),
             ('C06.R4', r4_coverage_algebra), ('C06.R5', r5_supported_only), ('C06.R6', r6_determinism),
-            ('C06.R7', c07.r1b_validate_final_value), ('C06.R8', r8_memo), ('C06.R9', r9_coverage_plumbing), ('C06.R10', _counters), ('C06.R11', _prince_tally), ('C06.R12', r12_counts_per_training)]
+            ('C06.R7', c07.r1b_validate_final_value), ('C06.R8', r8_memo), ('C06.R9', r9_coverage_plumbing), ('C06.R10', _counters), ('C06.R11', _prince_tally), ('C06.R12', r12_counts_per_training), ('C06.R13', _splice_discipline)]
 
 
 META = {
